@@ -159,6 +159,51 @@ def nodeid_rule(repo, res, ty, rule="NODEID"):
     res.floor(rule, n, 12)
 
 
+def cluster_rule(repo, res, ty, rule="CLUSTERID"):
+    """`one cluster per within-word automaton`, numbered as the edges that enter it and as the emitted script: every sub-automaton
+    number printed by the dfa dumper (cluster names, the prefix of the nodes inside a cluster, the dashed edges) is read from
+    dfa.get_subwords(array_start) -- the de-duplicated numbering the emitters use -- and from nothing else (a running counter over
+    transitions numbers an automaton once per transition that enters it)."""
+    fn = repo.fn("dfa::do_to_dot")
+    if fn is None:
+        res.undecided(rule, f"{rule}:dfa::do_to_dot", "function not found")
+        return
+    envs = A.collect_envs(fn)
+    n = 0
+    seq = {}
+    for s in TM.fmt_sites(fn, envs):
+        for idx, nm, e in s.holes:
+            env = (envs.get(id(e)) if e is not None else None) or s.env
+            t = TY.strip(ty.of(e, env)) if e is not None else "?"
+            what = RE.hole_text(repo, fn, e)
+            if t != "usize" or "recursion" in what:
+                continue
+            seen = []
+
+            def probe(f, node):
+                if node["k"] == "MethodCall":
+                    seen.append(node["method"])
+
+            T.Taint(repo, ty, set(), scalars_clean=False, probe=probe).raw(fn, e, env)
+            n += 1
+            seq[what] = seq.get(what, 0) + 1
+            ok = "get_subwords" in seen and not ({"enumerate", "zip", "position"} & set(seen))
+            res.check(ok, rule, f"{rule}:dfa::do_to_dot:{what}#{seq[what]}", f"sub-automaton number `{what}` obtained through {sorted(set(seen))}" + ("" if ok else ": not (only) the get_subwords numbering shared with the edges and the script"), f"{fn.file}:{s.node['l']}")
+    res.floor(rule, n, 4)
+    # --dfa dumps the automaton that is emitted: the receiver of to_dot in main::aot is the minimised one
+    fa = repo.fn("main::aot")
+    if fa is not None:
+        ea = A.collect_envs(fa)
+        for c in P.find_calls(fa.body, methods={"to_dot"}):
+            if len(c["args"]) == 2 and c["recv"]["k"] == "Path" and c["recv"]["path"] == "dfa":
+                p = A.show(A.resolve(c["recv"], ea.get(id(c))))
+                ok = p.endswith(".minimize()")
+                # and it is the same value the emitters get
+                emits = [A.show(A.resolve(x["args"][2], ea.get(id(x)))) for x in P.find_calls(fa.body, names={"write_completion_script"}) if len(x["args"]) == 3]
+                ok = ok and all(e == p for e in emits) and bool(emits)
+                res.check(ok, "MPT", "MPT:main::aot:dumps-emitted-automaton", f"--dfa dumps {p[:50]}...{p[-14:]}" + ("" if ok else ": not the (minimised) automaton handed to the emitters -- state numbers and merged states differ from the script"), f"{fa.file}:{c['l']}")
+
+
 def arms_rule(repo, res, rule="ARMS"):
     fn = repo.fn("main::aot")
     if fn is None:
@@ -278,6 +323,7 @@ def run(repo, res, tier):
     enc_rule(repo, res, tier=tier)
     sink_rule(repo, res, ty)
     nodeid_rule(repo, res, ty)
+    cluster_rule(repo, res, ty)
     arms_rule(repo, res)
     label_rule(repo, res)
     common.run_traversals(repo, res, enum="RegexNode", only={"regex::do_to_dot"}, rp=False)
